@@ -154,6 +154,14 @@ def histories(w: dict, rng: random.Random, tier: str) -> list[dict]:
         ev.append({"a": "Apply", "obj": 2, "off": OFFSET2, "via": "reloaded"})
         if rng.random() < .5:
             ev.append({"a": "Apply", "obj": 1, "off": 0, "via": "reloaded"})
+    # a scattered selection: points inside a few cells chosen at random (rarely contiguous, often leaving a cell out whose
+    # nodes / edges all belong to selected neighbours)
+    inner = GW.inner_points(w)
+    if len(inner) >= 3:
+        for _ in range(1 if tier == "quick" else 3):
+            chosen = rng.sample(inner, rng.randint(2, max(2, min(len(inner) - 1, 4))))
+            ev.append({"a": "MakeMask", "geom": [{"t": "pt", "pts": [p]} for p in chosen], "label": "scatter", "buffer": 0})
+            ev.append({"a": "Apply", "obj": 1, "off": 0, "via": "direct"})
     g = rng.choice(geoms[:6])
     b = rng.choice([0, 1])
     ev.append({"a": "MakeMask", "geom": g["parts"], "label": g["label"], "buffer": b})
